@@ -802,3 +802,133 @@ func rootIsLocalAlloc(v ssa.Value) bool {
 	}
 	return false
 }
+
+// rulePooledMemoryNotReturned (C13-R15 / C03-R7): a value taken from a sync.Pool belongs to the
+// function only until it is put back; the next Get — on any goroutine — hands the same memory to
+// somebody else. A function that puts the value back (also by defer) and returns something built
+// in that memory returns bytes another goroutine overwrites: the signature payload of one header
+// is verified while it already holds the encoding of another.
+func rulePooledMemoryNotReturned(c *Check, rule string, progs []*Prog) {
+	c.Doc(rule, "VP: no function that hands a value back to a sync.Pool (Put, also deferred) returns a value derived from what it took out of the pool (the pooled buffer itself, a slice of it, the result of an append / encode-into call on it): after the Put the memory belongs to the next Get on any goroutine.")
+	n, nPools := 0, 0
+	seen := map[string]bool{}
+	for _, p := range progs {
+		for _, fn := range p.Funcs {
+			pk := fnPkg(fn)
+			if pk == nil || !strings.HasPrefix(pk.Pkg.Path(), rootPath) || fn.Blocks == nil || seen[fnName(fn)] {
+				continue
+			}
+			seen[fnName(fn)] = true
+			n++
+			puts := callsNamed(fn, func(nm string) bool { return nm == "(*sync.Pool).Put" })
+			if !puts {
+				continue
+			}
+			nPools++
+			bad := ""
+			ctx := &Ctx{Fn: fn}
+			for _, b := range fn.Blocks {
+				ret, ok := b.Instrs[len(b.Instrs)-1].(*ssa.Return)
+				if !ok {
+					continue
+				}
+				for i := range ret.Results {
+					t := TermOf(spilledResult(ret, i), ctx)
+					if t.Contains(func(x *Term) bool { return (x.Op == "call" || x.Op == "invoke") && strings.HasSuffix(x.Name, "sync.Pool).Get") }) {
+						bad = p.InstrPos(ret) + ": " + trunc(t.String(), 90)
+					}
+				}
+			}
+			inst := fnShort(fn) + " ⟂ returns nothing it gave back to the pool"
+			if bad == "" {
+				c.OK(rule, inst, fnName(fn), p.Pos(fn.Pos()), "no returned value derives from the pooled value", true)
+			} else {
+				c.Bad(rule, inst, fnName(fn), p.Pos(fn.Pos()), "the function puts a pooled value back and returns memory derived from it ("+bad+"): the caller still reads it when the next Get, on another goroutine, writes into it — e.g. the payload a header's signature is verified over is overwritten by the encoding of another header, and a forged header passes with the genuine one's signature", nil)
+			}
+		}
+	}
+	if n == 0 {
+		c.Unk(rule, "functions", "", "", "anchor lost: no function examined")
+		return
+	}
+	if nPools == 0 {
+		c.OK(rule, "no function of the repository puts a value back into a sync.Pool", "", "", fmt.Sprintf("%d functions examined", n), false)
+	}
+}
+
+// ruleWakeChannelBuffered (C07-R11 / C09-R13 / C02-R15): the loops that work "when there is
+// something to do" are woken through a signal channel by non-blocking sends. A signal sent while
+// the loop is in the middle of a pass must not be lost — the pass may already be past the point
+// where the new work would have been seen — so each such channel keeps one pending signal:
+// capacity >= 1, a constant. With an unbuffered channel a non-blocking send succeeds only while
+// the loop is parked in its select; the work signalled during a pass waits for the next unrelated
+// signal, or for ever.
+func ruleWakeChannelBuffered(c *Check, p *Prog, rule string, loops ...string) {
+	c.Doc(rule, "CT: every signal channel (chan struct{} field of the manager) the loop waits on in its select is created with a constant capacity >= 1: the signals are sent without blocking, and one sent during a pass of the loop must be kept for the next pass.")
+	nm := p.MustFunc(blockF("NewManager"))
+	caps := map[string]string{} // field label -> "k" | "?" (non-constant / unbuffered)
+	pos := map[string]string{}
+	for _, b := range nm.Blocks {
+		for _, in := range b.Instrs {
+			st, ok := in.(*ssa.Store)
+			if !ok {
+				continue
+			}
+			fa, ok := st.Addr.(*ssa.FieldAddr)
+			if !ok || derefStruct(fa.X.Type()) == nil {
+				continue
+			}
+			mk, ok := st.Val.(*ssa.MakeChan)
+			if !ok {
+				continue
+			}
+			l := fieldLabel(fa.X.Type(), fa.Field)
+			pos[l] = p.InstrPos(mk)
+			if k, ok := mk.Size.(*ssa.Const); ok && k.Int64() >= 1 {
+				caps[l] = fmt.Sprint(k.Int64())
+			} else {
+				caps[l] = "?"
+			}
+		}
+	}
+	n := 0
+	for _, ln := range loops {
+		root := p.MustFunc(mgrM(ln))
+		g := BuildECFG(p, root, ExpandOpts{MaxDepth: 2})
+		c.NoteGraph(g)
+		seen := map[string]bool{}
+		for _, nd := range g.Nodes {
+			sel, ok := nd.In.(*ssa.Select)
+			if !ok || nd.Kind != NInstr || !g.Live()[nd] {
+				continue
+			}
+			for _, stt := range sel.States {
+				if stt.Dir != types.RecvOnly {
+					continue
+				}
+				ct, ok := stt.Chan.Type().Underlying().(*types.Chan)
+				if !ok || ct.Elem().String() != "struct{}" {
+					continue
+				}
+				t := TermOf(stt.Chan, nd.Ctx)
+				if t.Op != "field" || len(t.Args) != 1 || t.Args[0].V == nil || !strings.HasSuffix(t.Args[0].V.Type().String(), "block.Manager") || seen[t.Name] {
+					continue
+				}
+				seen[t.Name] = true
+				n++
+				inst := ln + " ⟂ wake-up channel " + t.Name + " keeps a pending signal"
+				switch caps[t.Name] {
+				case "":
+					c.Unk(rule, inst, fnName(root), "", "anchor lost: the channel is not created with make in NewManager")
+				case "?":
+					c.Bad(rule, inst, fnName(nm), pos[t.Name], "the channel the loop waits on is unbuffered (or of non-constant capacity) while its signals are sent without blocking: a signal sent during a pass of the loop is dropped, and what it announced waits for the next unrelated signal — if none comes, for ever", nil)
+				default:
+					c.OK(rule, inst, fnName(nm), pos[t.Name], "capacity "+caps[t.Name], true)
+				}
+			}
+		}
+	}
+	if n == 0 {
+		c.Unk(rule, "wake-up channels", "", "", "anchor lost: no signal channel of the manager in the loops' selects")
+	}
+}
